@@ -2,6 +2,8 @@
 Driver/FaCore.lean — commands for C01 (reading a DFA / NFA).
   DFA_READ <dfa> <word> <isStr>  →  trace, terminating exception, read_input, accepts_input, `in`
   NFA_READ <nfa> <word> <isStr>
+  DFA_READ_IGNORE <dfa> <word>   →  trace and terminating exception of
+                                    read_input_stepwise(word, ignore_rejection=True)
   DFA_VALIDATE <dfa> / NFA_VALIDATE <nfa> → ok | err <class>
 -/
 import AutomataVerif.Driver.Proto
@@ -22,6 +24,12 @@ def dfaRead : P String := do
     "read", showRes showOpt ri, "acc", showRes showBool ai,
     "in", showRes showBool c1, "in_nonstr", showRes showBool c2,
     "valid", showRes (fun _ => "") d.validate])
+
+def dfaReadIgnore : P String := do
+  let d ← dfa
+  let w ← word
+  let (tr, ex) := d.readStepwise w true
+  pure (" ".intercalate ["trace", showList showOpt tr, "exn", showExn ex])
 
 def nfaRead : P String := do
   let n ← nfa
@@ -45,6 +53,7 @@ def handle (cmd : String) (args : List String) : Except String String :=
   match cmd with
   | "DFA_READ" => run dfaRead args
   | "NFA_READ" => run nfaRead args
+  | "DFA_READ_IGNORE" => run dfaReadIgnore args
   | "NFA_CLOSURES" => run nfaClosures args
   | "DFA_VALIDATE" => run (do let d ← dfa; pure (showRes (fun _ => "") d.validate)) args
   | "NFA_VALIDATE" => run (do let n ← nfa; pure (showRes (fun _ => "") n.validate)) args
